@@ -539,6 +539,50 @@ pub fn run(ctx: &Ctx) {
         case.hash = Some(lo);
         Outcome::Held
     });
+    // beyond the decodable range: 2^31 .. 2^64-1. The encoder must still write the number it was given
+    // (the specification's bit string), and no reader may turn that string into a different number.
+    ctx.run_sub("nat-beyond-range", Plan::enumerate(34, 0.05), |_rng, case| {
+        let k = case.idx + 31;
+        let c: u128 = 1u128 << k;
+        let mut n_checked = 0u64;
+        for d in -40i128..=40 {
+            let n = c as i128 + d;
+            if n < (1i128 << 31) || n > u64::MAX as i128 {
+                continue;
+            }
+            let n = n as u64;
+            let model = bits::natural_bits(n);
+            let (bytes, len) = match crate::runner::guard(|| lib_encode(n as usize)) {
+                Ok(x) => x,
+                Err(pn) => return violated("panic:encode_natural", format!("n = {} : {}", n, pn)),
+            };
+            if len != model.len() || bytes != bits::bytes_of_bits(&model) {
+                case.desc = format!("n = {}", n);
+                return violated("nat-encode-mismatch", format!("encode_natural({}) wrote {} bits {} ; specification gives {} bits {}", n, len, bits::fmt_bytes(&bytes), model.len(), bits::bits_str(&model)));
+            }
+            macro_rules! no_other_number {
+                ($t:ty, $name:expr) => {{
+                    let mut it = BitIter::from(&bytes[..]);
+                    if let Ok(v) = it.read_natural::<$t>(None) {
+                        if u64::try_from(v).ok() != Some(n) {
+                            case.desc = format!("n = {}", n);
+                            return violated(format!("nat-truncated:{}", $name), format!("the encoding of {} reads back through read_natural::<{}> as {}", n, $name, v));
+                        }
+                    }
+                }};
+            }
+            no_other_number!(u8, "u8");
+            no_other_number!(u16, "u16");
+            no_other_number!(u32, "u32");
+            no_other_number!(u64, "u64");
+            no_other_number!(usize, "usize");
+            n_checked += 1;
+        }
+        case.add("naturals-beyond-range", n_checked);
+        case.desc = format!("n within 40 of 2^{}", k);
+        case.hash = Some(k);
+        Outcome::Held
+    });
     ctx.run_sub("nat-random", Plan::sample(t.pick(2_000, 100_000), 0.1), |rng, case| {
         for _ in 0..256 {
             let bitsz = rng.range(1, 31);
